@@ -297,6 +297,7 @@ inductive Fn where
   | quotedString | graphRec | cmpBindingsWith | bgpRec | populateList | markListNode | jsonify
   | findSubject | prettyWriteTerm | dedupNext | nq | termCmp
   | ntWriteTermCycle | selectCycle | populateConvertCycle | prettyWriteCycle | termEq | termHash
+  | checkExists
   deriving Repr, DecidableEq, Inhabited
 
 def Fn.ofName : String → Option Fn
@@ -308,6 +309,7 @@ def Fn.ofName : String → Option Fn
   | "nt::quoted_string" => some .quotedString
   | "exec::graph_rec" => some .graphRec
   | "exec::cmp_bindings_with" => some .cmpBindingsWith
+  | "exec::check_exists" => some .checkExists
   | "bgp::bgp_rec" => some .bgpRec
   | "engine::populate_list" => some .populateList
   | "engine::mark_list_node" => some .markListNode
@@ -357,6 +359,9 @@ def famJNodes (n : Nat) : List JNode :=
 
 /-- `SELECT ?g { GRAPH ?g { ?s ?p ?o } }` -/
 def famQuery : Alg := .project (.graphVar .bgp)
+
+/-- `?s = <x:match>` (the FILTER of the harness): a binary operator on two leaves -/
+def famExpr : Expr := .node (.cons .leaf (.cons .leaf .nil))
 
 /-- one flat list of `n` items, as the object that `convert_rdf_object` is called on -/
 def famList (n : Nat) : LItem := .sub (LItems.ofList (List.replicate n .leaf))
@@ -434,6 +439,9 @@ def siteDepth (f : Fn) (cls : SiteClass) (sh : Shape) (n : Nat) : Nat :=
     if isRec cls then assumedLinear n else (ntWriteTerm (famLiteral n)).2
   | .selectCycle =>
     if isRec cls then assumedLinear n else selectD n famQuery
+  | .checkExists =>
+    -- the expression is walked once per operator, whatever the number `n` of rows / named graphs
+    if isRec cls then assumedLinear n else checkD n famExpr
   | .populateConvertCycle =>
     if isRec cls then assumedLinear n else convertD (famList n)
   | .prettyWriteTerm | .prettyWriteCycle =>
@@ -457,6 +465,7 @@ def siteBound (f : Fn) (n : Nat) : Nat :=
   | .termCmp | .termEq | .termHash => 1 + nesting (famLiteral 0)
   | .ntWriteTermCycle => 1 + 2 * nesting (famLiteral 0)
   | .selectCycle => 3 * famQuery.height + 1
+  | .checkExists => 3 * famExpr.height + 1
   | .populateConvertCycle => 1 + 2 * (famList 0).nest
   -- one collection below the subject
   | .prettyWriteTerm | .prettyWriteCycle => 5 + 6 * 1
@@ -484,8 +493,10 @@ def harnessFns : String → Option (List (Fn × Shape))
   -- that scan goes through GspoMatchingIterator and skips every quad of every named graph
   | "sparql_graph" => flatFns [.graphRec, .gspoNext, .selectCycle, .bgpRec]
   -- the iterator behind a BGP skips nothing here (its matchers accept every row)
-  | "sparql_bgp" | "sparql_filter" | "sparql_ops" => flatFns [.bgpRec, .selectCycle]
-  | "sparql_orderby" => flatFns [.cmpBindingsWith, .bgpRec, .selectCycle]
+  | "sparql_bgp" => flatFns [.bgpRec, .selectCycle]
+  -- FILTER / BIND / ORDER BY: `check_exists` walks the expression before the evaluation
+  | "sparql_filter" | "sparql_ops" => flatFns [.bgpRec, .selectCycle, .checkExists]
+  | "sparql_orderby" => flatFns [.cmpBindingsWith, .bgpRec, .selectCycle, .checkExists]
   -- one list of `n` items
   | "jsonld_list" => flatFns [.markListNode, .populateList, .populateConvertCycle, .jsonify]
   -- `n / 2` lists of two items: the walks along a list are two cells long
